@@ -2,8 +2,8 @@ package main
 
 import (
 	"fmt"
-	"regexp"
 	"go/types"
+	"regexp"
 	"sort"
 	"strings"
 
@@ -11,17 +11,17 @@ import (
 )
 
 type FuncResult struct {
-	Key     string
-	Short   string
-	Spec    *FuncSpec
-	Obls    []*Obligation
-	Flags   []string
-	Assumed []string
-	Inlined []string
-	Errs    []string
-	Lines   []string
-	Checks  []string
-	NInstr  int
+	Key         string
+	Short       string
+	Spec        *FuncSpec
+	Obls        []*Obligation
+	Flags       []string
+	Assumed     []string
+	Inlined     []string
+	Errs        []string
+	Lines       []string
+	Checks      []string
+	NInstr      int
 	DroppedAuto []string
 }
 
